@@ -136,7 +136,7 @@ class Qual:
                     datoms_ = g.atoms_at(dnode)
                     if all(self._guarded_not_sentinel(datoms_, a) for a in alts):
                         continue
-                    ac = [x for x in self.spec.get("audited_contract", []) if x["function"] == f.path and x["variable"] == m.group(1)]
+                    ac = [x for x in self.spec.get("audited_contract", []) if x["function"] == f.path and re.search(x.get("variable_rx", "^%s$" % re.escape(x.get("variable", ""))), m.group(1))]
                     if ac:
                         self.audited_used.append(ac[0])
                         continue
